@@ -235,6 +235,13 @@ def run_graph(spec, schedule):
     try:
         sched.run(main())
         asm.finish()
+        # stream items arrive in list order without gaps or repeats (a failure is raised only after the
+        # batches before it were delivered)
+        for i, k in enumerate(spec["streams"]):
+            want = list(range(sum(k["batches"])))
+            got = asm.data.get(f"s{i}") if isinstance(asm.data, dict) else None
+            if got != want:
+                asm.problem("stream-items-order", f"stream s{i} assembled {got}, expected {want}")
         return asm, sched, starts, None
     except Exception as e:  # noqa: BLE001
         return asm, sched, starts, e
